@@ -157,7 +157,7 @@ def farm(fn, items, *, seed=0, init=None, nproc=None, chunk=None, progress=None)
     total = Result()
     if not items:
         return total
-    if nproc <= 1 or len(items) < 4:
+    if nproc <= 1 or len(items) < 2:
         _worker_init(init)
         return total.merge(_worker_call((fn, items)))
     if chunk is None:
